@@ -63,6 +63,17 @@ def family(name, n):
     if name == 'high-index-literals':      # literal without indexing, two-octet name index (0f 70 = index 127), empty value
         setup = b''.join(bytes([0x40, 0x01, 1 + i, 0x00]) for i in range(70))
         return [setup], b'\x0f\x70\x00' * n, {'limit': big}
+    if name == 'huffman-ff-refused':       # a Huffman string of 0xff octets (over-long padding / EOS): refused, cheaply
+        return [], b'\x00' + int_octets(n, 7, 0x80) + b'\xff' * n + b'\x01v', {'limit': big}
+    if name == 'huffman-good-then-ff':     # valid code for n/2 symbols, then a tail of 0xff: refused at the end
+        e = huff_encode(b'a' * (n // 2)) + b'\xff' * (n // 2)
+        return [], b'\x00' + int_octets(len(e), 7, 0x80) + e + b'\x01v', {'limit': big}
+    if name == 'bigtable-inserted-literals':   # a table of 2^30 octets: every literal stays, the table grows with the block
+        return [int_octets(1 << 30, 5, 0x20)], b'\x40\x01a\x00' * n, {'limit': big, 'allowed': 1 << 30}
+    if name == 'bigtable-inserted-then-referenced':   # ... and every one of them is then referenced once, oldest first
+        m = max(n // 8, 1)
+        refs = b''.join(int_octets(62 + m - 1 - i, 7, 0x80) for i in range(0, m, max(m // 2000, 1)))
+        return [int_octets(1 << 30, 5, 0x20)], b'\x40\x01a\x00' * m + refs, {'limit': big, 'allowed': 1 << 30}
     if name == 'huffman-literals':
         return [], b'\x40\x81\x1f\x81\x1f' * n, {'limit': big}
     raise SystemExit('unknown family ' + name)
@@ -70,7 +81,8 @@ def family(name, n):
 
 FAMILIES = ['index-run', 'index-run-zero', 'namelen-run', 'valuelen-run', 'update-run', 'litname-index-run', 'plain-string',
             'huffman-string', 'indexed-fields', 'dyn-indexed-fields', 'inserted-literals', 'plain-literals', 'never-literals-idxname',
-            'size-updates', 'size-updates-2', 'evicting-literals', 'huffman-literals', 'high-index-fields', 'high-index-literals']
+            'size-updates', 'size-updates-2', 'evicting-literals', 'huffman-literals', 'high-index-fields', 'high-index-literals',
+            'huffman-ff-refused', 'huffman-good-then-ff', 'bigtable-inserted-literals', 'bigtable-inserted-then-referenced']
 
 
 def main():
@@ -85,6 +97,8 @@ def main():
 
     def fresh():
         d = hpack.Decoder(kw['limit']) if 'limit' in kw else hpack.Decoder()
+        if 'allowed' in kw:
+            d.max_allowed_table_size = kw['allowed']
         for s in setup:
             d.decode(s)
         return d
